@@ -408,6 +408,19 @@ def reify_factor(f, names, kout=None):
             for z in (x, y):
                 names.setdefault(z.func.__name__, len(names))
             return ['conv', names[x.func.__name__], names[y.func.__name__]]
+        # exp(a tau) * v(t - tau) over (0, t) or (0, oo): convolution of the classical signal e^{a t} (t >= 0) with a named
+        # function (lower limit 0 only: with -oo the exponential would not be causal)
+        if g.is_Mul and len(g.args) == 2 and lo == 0 and hi in (tsym, sp.oo):
+            for i in (0, 1):
+                e_, x_ = g.args[i], g.args[1 - i]
+                if (isinstance(e_, sp.exp) and isinstance(x_, AppliedUndef) and len(x_.args) == 1
+                        and sp.expand(x_.args[0] - (tsym - var)) == 0 and not e_.args[0].has(tsym)):
+                    a, b = linear(e_.args[0], var)
+                    if b != 0 or a == 0:
+                        break
+                    nm = x_.func.__name__
+                    names.setdefault(nm, len(names))
+                    return ['conve', a, names[nm], 1 - i]
         raise Unreifiable('integral ' + str(f)[:40])
     if f.is_Function:
         nm = type(f).__name__
@@ -565,7 +578,7 @@ class Oracle:
         fs = m['fs']
         deltas = [f for f in fs if f[0] == 'delta']
         rest = [f for f in fs if f[0] != 'delta']
-        if any(f[0] == 'conv' for f in fs):
+        if any(f[0] in ('conv', 'conve') for f in fs):
             raise Uneval('oracle: convolution')
         if len(deltas) > 1:
             raise Uneval('oracle: product of impulses')
